@@ -642,8 +642,8 @@ pub fn run(cfg: &Config) -> Report {
     let sweep = (ROWS.len() * 32) as u64;
     let big_u8: [usize; 6] = [65536, 40000, 32769, 32768, 5000, 65535];
     let n_big = if cfg.thorough() { 64 } else { 12 } as u64;
-    let n_rand = cfg.n(6000, 300_000) as u64;
-    let n_real = cfg.n(600, 20_000) as u64;
+    let n_rand = cfg.n(6000, 60_000) as u64;
+    let n_real = cfg.n(600, 10_000) as u64;
     let total = 2 * sweep + n_big + n_rand + n_real;
     run_cases(cfg, total, |case, rng, rep| {
         if case < sweep {
